@@ -41,7 +41,7 @@ PROPS = {
             f"{MAT}.get_target_power",
             f"{MAT}.drop_old_proposals",
         ],
-        lemmas=["proposal_eq_is_key_equality", "proposal_lt_strict_total_order_on_keys"],
+        lemmas=["proposal_eq_is_key_equality", "proposal_hash_respects_eq", "proposal_lt_strict_total_order_on_keys"],
         bounded=[],
         level="proof",
         explanation="Envelope: contracts on the three _bounds functions and an inductive invariant for the priority sweep "
@@ -65,7 +65,7 @@ PROPS = {
             f"{MAT}.get_status#c04",
             f"{PM}._base_classes:_Report.adjust_to_bounds",
         ],
-        lemmas=["proposal_lt_strict_total_order_on_keys"],
+        lemmas=["proposal_eq_is_key_equality", "proposal_hash_respects_eq", "proposal_lt_strict_total_order_on_keys"],
         bounded=[],
         level="proof",
         explanation="Ghost recurrences written from the property statement - G (running range: intersect with each higher "
@@ -87,7 +87,7 @@ PROPS = {
             f"{PM}._power_managing_actor:PowerManagingActor._calculate_shifted_bounds",
             f"{PM}._power_managing_actor:PowerManagingActor._calculate_target_power",
         ],
-        lemmas=[],
+        lemmas=["proposal_eq_is_key_equality", "proposal_hash_respects_eq", "proposal_lt_strict_total_order_on_keys"],
         bounded=[],
         level="proof",
         explanation="_calculate_target_power is verified against Matryoshka.calculate_target_power's contract (None = stored "
@@ -100,9 +100,10 @@ PROPS = {
                      "drop_old_proposals is proved to keep buckets and stored targets"],
     ),
     "C13": dict(
-        modules=["fe_steps"],
+        modules=["fe_steps", "fe_evaluator"],
         contracts=[f"{FS}:{c}.apply" for c in ("Adder", "Subtractor", "Multiplier", "Divider", "Maximizer", "Minimizer",
-                                               "Consumption", "Production", "Clipper", "ConstantValue", "MetricFetcher")],
+                                               "Consumption", "Production", "Clipper", "ConstantValue", "MetricFetcher")]
+                  + [f"{FEV}:FormulaEvaluator.apply#c13"],
         lemmas=[],
         bounded=[dict(kind="native_script", name="whole expressions: output None iff a needed input is missing or the result is undefined",
                       module="native.explore_formulas")],
@@ -223,7 +224,7 @@ PROPS = {
     ),
     "C14": dict(
         modules=["pd_actor"],
-        contracts=[f"{PDA}._process_request", f"{PDA}._handle_task_completion", f"{PDA}._run"],
+        contracts=[f"{PDA}._process_request", f"{PDA}._process_request#from_run", f"{PDA}._handle_task_completion", f"{PDA}._run"],
         lemmas=[],
         bounded=[],
         level="proof",
@@ -306,8 +307,11 @@ PROPS = {
                      "end-to-end 'output equals the true value' additionally needs C05/C06; not re-proved here"],
     ),
     "C06": dict(
-        modules=["fe_evaluator"],
-        contracts=[f"{FEV}:FormulaEvaluator.apply", f"{FENG}:FormulaEngine3Phase._run"],
+        modules=["fe_evaluator", "fe_fetcher"],
+        contracts=[f"{FEV}:FormulaEvaluator.apply", f"{FENG}:FormulaEngine3Phase._run",
+                   # what a fetcher hands to the evaluator for a timestamp (primary or fallback sample of THAT timestamp)
+                   f"{FS}:MetricFetcher._synchronize_and_fetch_fallback", f"{FS}:MetricFetcher.fetch_next_with_fallback",
+                   f"{FS}:MetricFetcher._fetch_next"],
         lemmas=[],
         bounded=[],
         level="proof",
@@ -363,9 +367,10 @@ PROPS = {
                      "DataSourcingActor._run and the registry are thin wrappers, not under contract"],
     ),
     "C05": dict(
-        modules=["fe_steps"],
+        modules=["fe_steps", "fe_evaluator"],
         contracts=[f"{FS}:{c}.apply" for c in ("Adder", "Subtractor", "Multiplier", "Divider", "Maximizer", "Minimizer",
-                                               "Consumption", "Production", "Clipper", "ConstantValue", "MetricFetcher")],
+                                               "Consumption", "Production", "Clipper", "ConstantValue", "MetricFetcher")]
+                  + [f"{FEV}:FormulaEvaluator.apply"],      # "... on the input values of the same timestamp"
         lemmas=[],
         bounded=[dict(kind="native_script", name="compiled formula vs exact arithmetic (Tokenizer, FormulaBuilder, composition API)",
                       module="native.explore_formulas")],
@@ -379,10 +384,13 @@ PROPS = {
                      "re-association over the reals; not attempted (DESIGN 3, C05)"],
     ),
     "C01": dict(
-        modules=["pd_distribution"],
+        modules=["pd_distribution", "pd_results"],
         contracts=[f"{ALGC}._greedy_distribute_remaining_power", f"{ALGC}._distribute_multi_inverter_pairs",
                    f"{ALGC}._inclusion_exclusion_bounds", f"{ALGC}._distribute_consume_power",
-                   f"{ALGC}._distribute_supply_power", f"{ALGC}.distribute_power"],
+                   f"{ALGC}._distribute_supply_power", f"{ALGC}.distribute_power",
+                   # "the power reported as set is the power commanded": what the manager reports about a distribution
+                   f"{BMGR}._parse_result", f"{BMGR}._set_distributed_power",
+                   f"{BMGR}._set_distributed_power#assumed_by_distribute", f"{BMGR}._distribute_power"],
         lemmas=[],
         bounded=[dict(kind="native_script", name="distribute_power: conservation, signs, remainder (C01 clauses)",
                       module="native.explore_distribution")],
